@@ -13,7 +13,9 @@ from tally.merchant_engine import parse_merchants
 O = Oracle()
 TOKENS = ['STARBUCKS', 'STORE', 'Cafe', "JOE'S", 'A.B', 'C*D', 'X+Y', '(NEW)', 'WHAT?', '[Z]', 'A|B', 'P$', '^Q', 'R{2}', 'BACK\\SLASH', 'QUO"TE', '00012345',
           '#1234', 'WA', '98101', 'SQ', '*MARKET', 'TST*', 'APLPAY', 'Spaßbad', 'É', 'İstanbul', 'ﬁsh', '12', 'A,B', 'x=y', 'tab\tsep',
-          '#12A', '#7-X', 'CRISP', 'SHOPP*MART', 'GOOGLE', '#9']
+          '#12A', '#7-X', 'CRISP', 'SHOPP*MART', 'GOOGLE', '#9',
+          # a long number directly followed by text (a store id with a suffix, an amount inside the description)
+          '5744A21', '0042.50', '12345X']
 PREFIXES = ['', 'SQ *', 'TST* ', 'APLPAY ', 'PP*', 'GOOGLE *', 'SP ']
 
 
